@@ -36,6 +36,7 @@ type IdPKnobs struct {
 	JWKSKid            bool   `json:"jwks_kid"`             // publish kid in JWKS
 	LatencyUS          int    `json:"latency_us"`           // token endpoint latency on the fake clock
 	RefreshDeny        bool   `json:"refresh_deny"`         // refresh grants are answered invalid_grant
+	IDNoExp            bool   `json:"id_no_exp,omitempty"`  // ID tokens carry no exp claim (unusual provider)
 	Byz                string `json:"byz"`                  // byzantine production for id_token ("" = honest)
 	ByzOn              string `json:"byz_on"`               // login | refresh | both
 }
@@ -696,9 +697,15 @@ func (p *IdP) issue(ch *chainRec, login bool) map[string]any {
 			}
 		}
 		key := p.signKey()
+		exp := time.Unix(claims["exp"].(int64), 0)
+		if k.IDNoExp {
+			// a token without exp never "remains valid": the ledger records it as already expired
+			delete(claims, "exp")
+			exp = time.Time{}
+		}
 		tok := SignJWT(key, nil, claims)
 		ch.LastID = tok
-		p.issued[tok] = &issuedTok{Token: tok, Chain: ch.ID, Exp: time.Unix(claims["exp"].(int64), 0), Kind: "id", Login: login, knownExp: true, Key: key}
+		p.issued[tok] = &issuedTok{Token: tok, Chain: ch.ID, Exp: exp, Kind: "id", Login: login, knownExp: true, Key: key}
 		if p.curTR != nil {
 			p.curTR.SignedBy = key
 		}
